@@ -1182,9 +1182,9 @@ impl<'a> Gen<'a> {
         let use16 = self.cfg.shorts && self.rng.chance(1, 4);
         if use16 {
             if let Some(l) = self.dest16() {
-                if let (LV::Idx(..), false) = (&l, self.cfg.wild) {
-                    // R10: elements of short arrays: plain stores only (read-modify-write forms on
-                    // them are a known finding: short_array_rmw)
+                if let (LV::Idx(..), true) = (&l, self.rng.chance(1, 2)) {
+                    // (R10, lifted: read-modify-write forms on elements of short arrays were the
+                    // family short_array_rmw, repaired; half of the stores stay plain)
                     let s = self.scalars16();
                     let e = if s.is_empty() || self.rng.chance(1, 3) { self.const16() } else { Expr::Lv(LV::Var(*self.rng.pick(&s))) };
                     return Stmt::Expr(Expr::Assign(l, Box::new(e)));
@@ -2126,6 +2126,28 @@ impl<'a> Gen<'a> {
         // make sure the unprotected globals used by forced statements are plain variables
         let mut f0 = self.function(0, "f0", false);
         f0.inline = true;
+        // register context: the caller loads an index register with a constant right before the
+        // call, the body starts by stepping and testing it.  Inlined, load + step + test are one
+        // basic block for the peephole pass; out of line a JSR separates them
+        let regctx: Option<(LV, i32)> = if self.rng.chance(1, 3) {
+            let reg = if self.rng.chance(2, 3) { LV::X } else { LV::Y };
+            let c = self.rng.range(0, 6) as i32;
+            let inc = self.rng.chance(1, 2);
+            let d = self.g8.iter().rev().cloned().find(|v| !self.is_const(*v)).unwrap_or(self.g8[0]);
+            let k = self.const8();
+            let op = if self.rng.chance(1, 2) { BinOp::Ne } else { BinOp::Eq };
+            let test = Stmt::If(
+                Expr::Bin(op, Box::new(Expr::Lv(reg.clone())), Box::new(Expr::Num(c))),
+                Box::new(Stmt::Expr(Expr::Assign(LV::Var(d), Box::new(k)))),
+                None,
+            );
+            let lead = f0.body.iter().take_while(|s| matches!(s, Stmt::Decl(..))).count();
+            f0.body.insert(lead, test);
+            f0.body.insert(lead, Stmt::Expr(Expr::IncDec { lv: reg.clone(), post: true, inc }));
+            Some((reg, c))
+        } else {
+            None
+        };
         if self.rng.chance(1, 3) {
             let s = self.long_if();
             let at = f0.body.len().saturating_sub(1);
@@ -2155,6 +2177,15 @@ impl<'a> Gen<'a> {
         let mut m = self.function(3, "main", true);
         let k = self.rng.range(1, 5) as usize;
         let mut extra = self.forced_calls(0, k);
+        if let Some((reg, c)) = &regctx {
+            // constant loads in front of the direct calls: the tested constant, its neighbours
+            let mut with = Vec::new();
+            for st in extra {
+                let v = (*c + self.rng.range(0, 2) as i32 - 1) & 0xff;
+                with.push(Stmt::Block(vec![Stmt::Expr(Expr::Assign(reg.clone(), Box::new(Expr::Num(v)))), st]));
+            }
+            extra = with;
+        }
         extra.extend(self.forced_calls(1, 2));
         extra.extend(self.forced_calls(2, 1));
         // spread them through main
